@@ -66,6 +66,32 @@ type frameSpec struct {
 	Compress bool   `json:"compress,omitempty"` // compression flag set by the sender (legacy: body compressed)
 	Tracing  bool   `json:"tracing,omitempty"`
 	Payload  bool   `json:"payload,omitempty"` // custom payload with one entry (v4+)
+	// Spare > 0: the body carries that many bytes MORE than the message needs (the header's length field counts them).
+	// Every specification, section 2: a body "may contain more data than what is described in this document. It will
+	// however always be safe to ignore the remainder of the frame body". Such an envelope is written uncompressed.
+	Spare int `json:"spare,omitempty"`
+}
+
+// spareBytes: the bytes appended after the message (a recognisable pattern that is not a frame header of any version)
+func spareBytes(n int) []byte {
+	pat := []byte{0xCA, 0xFE, 0xBA, 0xBE, 0x4A, 0x00, 0xFF}
+	b := make([]byte, n)
+	for i := range b {
+		b[i] = pat[i%len(pat)]
+	}
+	return b
+}
+
+// withSpare appends n spare bytes to the body of an encoded, uncompressed envelope and corrects its length field
+func withSpare(env []byte, v primitive.ProtocolVersion, n int) []byte {
+	if n <= 0 {
+		return env
+	}
+	hl := v.FrameHeaderLengthInBytes()
+	out := append(append([]byte(nil), env...), spareBytes(n)...)
+	bl := len(out) - hl
+	out[hl-4], out[hl-3], out[hl-2], out[hl-1] = byte(bl>>24), byte(bl>>16), byte(bl>>8), byte(bl)
+	return out
 }
 
 var blobType = datatype.Blob
@@ -232,6 +258,7 @@ func echo(req *frame.Frame) *frame.Frame {
 // ---- equality up to nil/empty: same header fields (compression flag and body length aside) and same plain encoding
 
 var plainCodec = frame.NewCodec()
+var plainRaw = frame.NewRawCodec()
 
 func plainBytes(f *frame.Frame) ([]byte, error) {
 	c := f.DeepCopy()
@@ -290,7 +317,18 @@ type envDesc struct {
 
 // describe encodes f without compression (flags as given, compression bit kept in the description only) and locates
 // the filler inside the body.
-func describe(f *frame.Frame, fl []byte, kind string, seed int) (envDesc, []byte, error) {
+func describe(f *frame.Frame, fl []byte, kind string, seed int, spare int) (envDesc, []byte, error) {
+	d, env, err := describe0(f, fl, kind, seed)
+	if err != nil || spare <= 0 {
+		return d, env, err
+	}
+	env = withSpare(env, f.Header.Version, spare)
+	d.Suf += hex.EncodeToString(spareBytes(spare))
+	d.Len = len(env)
+	return d, env, nil
+}
+
+func describe0(f *frame.Frame, fl []byte, kind string, seed int) (envDesc, []byte, error) {
 	flags := f.Header.Flags
 	env, err := plainBytes(f)
 	if err != nil {
